@@ -290,6 +290,10 @@ Definition c_gp_gradp (tol : float) (al u w gu gw : list float) : N :=
   let '(mu_, mw_) := gp_gradient_primal TOpsF al u w in
   ofb (gp_conj_ok tol al u w gu gw && gp_conj_ok tol al u w mu_ mw_
        && gp_is_dual_feasible TOpsF al (map PrimFloat.opp gu) (map PrimFloat.opp gw)).
-(** the defect F4 as it was: the Rust output equals the model with the stored vector *)
-Definition c_gp_gradp_F4 (tol : float) (al u w stored_r gu gw : list float) : N :=
-  ofb (negb (gp_conj_ok tol al u w gu gw)).
+(** finding F4 (known, not repaired): the code writes a multiple of the *stored* Hessian vector
+    into the w-part.  The model of the code as it is ([gp_gradient_primal_F4]) must agree with
+    the Rust output; conjugacy ([c_gp_gradp]) fails for dim2 > 0 and is the known finding. *)
+Definition c_gp_gradp_model (tol : float) (al u w stored_r gu gw : list float) : N :=
+  let '(mu_, mw_) := gp_gradient_primal_F4 TOpsF stored_r al u w in
+  ofb (Nat.eqb (length gu) (length mu_) && Nat.eqb (length gw) (length mw_)
+       && alll (rclose tol) (mu_ ++ mw_) (gu ++ gw)).
